@@ -17,6 +17,22 @@ fn main() {
         );
         ck.finish();
     }
+    // `vh-selftest --tracing`: after `Check::from_args` the arguments of a TRACE-level log line are
+    // evaluated (exit 0), unless VH_NO_TRACING is set (exit 3)
+    if std::env::args().any(|a| a == "--tracing") {
+        static SEEN: std::sync::atomic::AtomicBool = std::sync::atomic::AtomicBool::new(false);
+        let _ck = vh_engine::Check::from_args("C00", "exploration");
+        tracing::trace!(
+            "{}",
+            {
+                SEEN.store(true, std::sync::atomic::Ordering::SeqCst);
+                1
+            }
+        );
+        let seen = SEEN.load(std::sync::atomic::Ordering::SeqCst);
+        println!("log arguments evaluated: {seen}");
+        std::process::exit(if seen { 0 } else { 3 });
+    }
     let bad = vh_engine::refimpl::self_test();
     if bad.is_empty() {
         println!("reference self-test: ok");
